@@ -316,7 +316,7 @@ func TestC16(t *testing.T) {
 		evalEnum(c, "workload", w, checkC16, &nviol)
 	}
 	tpls := []string{"{{.Vector}} {{.SeverityValue}} ({{.BaseScore}})", "{{range $i, $e := .Version}}{{$e}}{{end}}", "{{.AVName}}: {{.AVValue | html}}", "{{if eq .SeverityValue \"High\"}}!{{end}}{{.Version}}", "{{.Nope}}", "{{define \"a\"}}[{{.}}]{{end}}{{template \"a\" .Vector}}"}
-	c.rapidStage("workloads", pick(480, 8000), func(rt *rapid.T) {
+	c.rapidStage("workloads", pick(480, 24000), func(rt *rapid.T) {
 		var w workload
 		np := rapid.IntRange(1, 6).Draw(rt, "poolsize")
 		for i := 0; i < np; i++ {
